@@ -244,7 +244,7 @@ def model_val(v, index, canon):
     if isinstance(v, dict):
         return {"d": [[hx(k), model_val(x, index, canon)] for k, x in v.items()]}
     if isinstance(v, Config):
-        return {"r": index[id(v)]}
+        return {"r": index.get(id(v), -1)}
     raise ValueError(f"unsupported value {type(v)}")
 
 
@@ -258,8 +258,8 @@ def node_json(o, index, canon):
         if (name in x.values) != (x.values.get(name) is not None or not a.required):
             raise RuntimeError(f"presence invariant of the model broken for {name}")
     return {"typeId": hx(o.__xpmtype__.identifier.name), "cls": hx(cls_name(o)), "args": args,
-            "task": None if x.task is None else index[id(x.task)], "meta": x.meta, "sealed": bool(x._sealed),
-            "pre": [index[id(p)] for p in x.pre_tasks], "init": [index[id(p)] for p in x.init_tasks]}
+            "task": None if x.task is None else index.get(id(x.task), -1), "meta": x.meta, "sealed": bool(x._sealed),
+            "pre": [index.get(id(p), -1) for p in x.pre_tasks], "init": [index.get(id(p), -1) for p in x.init_tasks]}
 
 
 def lib_line(mod, lib, canon):
